@@ -197,6 +197,19 @@ def linear_directed(rnd, cfg):
     dist, fam = make_dist(rnd, mean_unit, rnd.choice([1, 2, 3, 5, 8]), cfg.get("family"), cfg.get("safe_dist", False))
     tags.add("family:" + fam)
     left = _d(">", did) if start_prefix else "[]"
+    if start_prefix and rnd.random() < 0.3:
+        # the left terminal's weight / list is what the prefix's descriptor uses for its first pick
+        if rnd.random() < 0.5:
+            lw = [0.0] * n_desc
+            for uj in range(n_u):
+                lw[2 * uj] = float(rnd.choice([0, 1, 3, 7]))
+            if sum(lw) == 0:
+                lw[0] = 1.0
+            left = _d(">", did, "|" + " ".join(_wnum(rnd, x) for x in lw) + "|")
+            tags.add("left_terminal:list")
+        else:
+            left = _d(">", did, "|" + rnd.choice(WEIGHT_TEXTS) + "|")
+            tags.add("left_terminal:weight")
     right = _d("<", did) if end_suffix else "[]"
     ends = [tpl.format(_d(esym, did, _w(rnd, 0.25))) for tpl, esym in end_specs]
     body = "{" + left + rnd.choice(["", " "]) + _sep(rnd).join(utexts)
